@@ -126,9 +126,17 @@ func (x *in) key(extra map[string]interface{}) map[string]interface{} {
 		}
 		k["hits_per_period"] = hpp
 		k["trough_hits_per_period"] = hpp * (1 - r)
+		pk := m + a
+		if math.IsNaN(pk) || math.IsInf(pk, 0) {
+			pk = -1
+		}
+		k["peak_hits_per_ns"] = pk
 	case "linear":
 		k["slope_negative"] = x.slope() < 0
 		k["slope_finite"] = !math.IsNaN(x.slope()) && !math.IsInf(x.slope(), 0)
+		if b := float64(x.Freq) / float64(x.Per); !math.IsNaN(b) && !math.IsInf(b, 0) {
+			k["start_hits_per_ns"] = b
+		}
 	}
 	for a, b := range extra {
 		k[a] = b
